@@ -685,6 +685,8 @@ host_write_s2d	(SF_PRIVATE *psf, const short *ptr, sf_count_t len)
 
 	scale = (psf->scale_int_float == 0) ? 1.0 : 1.0 / 0x8000 ;
 	bufferlen = ARRAY_LEN (ubuf.dbuf) ;
+	/* Whole frames only : the peak update walks the buffer channel by channel. */
+	bufferlen -= bufferlen % psf->sf.channels ;
 
 	while (len > 0)
 	{	if (len < bufferlen)
@@ -717,6 +719,8 @@ host_write_i2d	(SF_PRIVATE *psf, const int *ptr, sf_count_t len)
 
 	scale = (psf->scale_int_float == 0) ? 1.0 : 1.0 / (8.0 * 0x10000000) ;
 	bufferlen = ARRAY_LEN (ubuf.dbuf) ;
+	/* Whole frames only : the peak update walks the buffer channel by channel. */
+	bufferlen -= bufferlen % psf->sf.channels ;
 
 	while (len > 0)
 	{	if (len < bufferlen)
@@ -746,6 +750,8 @@ host_write_f2d	(SF_PRIVATE *psf, const float *ptr, sf_count_t len)
 	sf_count_t	total = 0 ;
 
 	bufferlen = ARRAY_LEN (ubuf.dbuf) ;
+	/* Whole frames only : the peak update walks the buffer channel by channel. */
+	bufferlen -= bufferlen % psf->sf.channels ;
 
 	while (len > 0)
 	{	if (len < bufferlen)
@@ -929,6 +935,8 @@ replace_write_s2d	(SF_PRIVATE *psf, const short *ptr, sf_count_t len)
 
 	scale = (psf->scale_int_float == 0) ? 1.0 : 1.0 / 0x8000 ;
 	bufferlen = ARRAY_LEN (ubuf.dbuf) ;
+	/* Whole frames only : the peak update walks the buffer channel by channel. */
+	bufferlen -= bufferlen % psf->sf.channels ;
 
 	while (len > 0)
 	{	if (len < bufferlen)
@@ -962,6 +970,8 @@ replace_write_i2d	(SF_PRIVATE *psf, const int *ptr, sf_count_t len)
 
 	scale = (psf->scale_int_float == 0) ? 1.0 : 1.0 / (8.0 * 0x10000000) ;
 	bufferlen = ARRAY_LEN (ubuf.dbuf) ;
+	/* Whole frames only : the peak update walks the buffer channel by channel. */
+	bufferlen -= bufferlen % psf->sf.channels ;
 
 	while (len > 0)
 	{	if (len < bufferlen)
